@@ -55,7 +55,9 @@ def handle (toks : List String) : String :=
       match decDisc d, m.nat?, ops.list? >>= (·.mapM decOp) with
       | some d, some m, some ops =>
         let (s, outs) := run (init d m) ops
-        ok [.list (outs.map encOut), .list (s.futs.map encF)]
+        ok [.list (outs.map encOut), .list (s.futs.map encF),
+            .list (s.accepted.map (fun n => V.int (Int.ofNat n))), .list (s.delivered.map (fun n => V.int (Int.ofNat n))),
+            .int s.done]
       | _, _, _ => err "bad-op"
     | [.atom "spec", d, m, ops] =>
       match decDisc d, m.nat?, ops.list? >>= (·.mapM decOp) with
